@@ -187,11 +187,15 @@ def guard_ptw(name, v, args):
                 raise Discard()
     elif name == "softplus":
         if np.iscomplexobj(z):
-            if not np.all(np.abs(z.real) <= 30):
+            # log(1+exp(z)) on its principal branch; far to the right (library: Re z > 33 -> z itself) this
+            # is only the same function while |Im z| < pi
+            sat = (z.real > 30) & (np.abs(z.imag) <= 2)
+            if not np.all((np.abs(z.real) <= 30) | sat):
                 raise Discard()
-            _pos(1 + np.exp(z), 0.1)
+            if not np.all(sat):
+                _pos(1 + np.exp(z[~sat]), 0.1)
     elif name == "sinc":
-        if not np.all((z == 0) | (np.abs(z) >= 1. / 64)):
+        if not REGIONS["sinc_small_argument"] and not np.all((z == 0) | (np.abs(z) >= 1. / 64)):
             raise Discard()
     elif name == "exponentiate":
         _pos(args[0], 0.25)
@@ -214,12 +218,31 @@ def _jp():
             r = jnp.minimum(r, hi)
         return r
 
+    def sinc(v):
+        # sin(t)/t, t = pi v, with the Maclaurin series for |t| < 1/2: automatic differentiation of the
+        # quotient (also of jnp.sinc) cancels catastrophically for small |t| (absolute error eps/|t|), the
+        # polynomial does not; truncation error of the series < 1e-19 relative
+        t = np.pi * v
+        small = jnp.abs(t) < 0.5
+        ts = jnp.where(small, t, 0.)
+        q = ts * ts
+        ser = 1. + q * (-1. / 6 + q * (1. / 120 + q * (-1. / 5040 + q * (1. / 362880 + q * (
+            -1. / 39916800 + q * (1. / 6227020800 + q * (-1. / 1307674368000)))))))
+        tl = jnp.where(small, 1., t)
+        return jnp.where(small, ser, jnp.sin(tl) / tl)
+
+    def sigmoid(v):
+        import jax
+        if jnp.iscomplexobj(v):
+            return 0.5 + 0.5 * jnp.tanh(v)
+        return jax.nn.sigmoid(2. * v)       # overflow-free value and derivative for any magnitude
+
     return {
-        "sqrt": jnp.sqrt, "sin": jnp.sin, "cos": jnp.cos, "tan": jnp.tan, "sinc": jnp.sinc,
+        "sqrt": jnp.sqrt, "sin": jnp.sin, "cos": jnp.cos, "tan": jnp.tan, "sinc": sinc,
         "exp": jnp.exp, "expm1": jnp.expm1, "log": jnp.log,
         "log10": lambda v: jnp.log(v) / np.log(10.), "log1p": jnp.log1p,
         "sinh": jnp.sinh, "cosh": jnp.cosh, "tanh": jnp.tanh,
-        "sigmoid": lambda v: 1. / (1. + jnp.exp(-2. * v)),
+        "sigmoid": sigmoid,
         "reciprocal": lambda v: 1. / v,
         "abs": jnp.abs, "absolute": jnp.abs, "sign": jnp.sign,
         "power": lambda v, e: jnp.power(v, e),
@@ -280,10 +303,12 @@ def _tilemat(M, nout, nin):
 def typ_of(n, u):
     """static type of a sub-expression: "D", "P", "S" or "T" """
     k = n[0]
-    if k in ("var", "bcast", "bcastS", "get", "lin", "linpre", "addf", "subf", "mulf", "divf", "jaxop"):
+    if k in ("var", "bcast", "bcastS", "get", "lin", "linpre", "addf", "subf", "mulf", "divf", "jaxop", "jaxop2"):
         return "D"
-    if k in ("vdot", "vdotf", "energy", "esum", "escale", "ham"):
+    if k in ("vdot", "vdotf", "energy", "esum", "escale", "ham", "avg"):
         return "S"
+    if k in ("tadd", "jaxopT"):
+        return "T"
     if k in ("sum", "integrate"):
         return "S" if n[1] is None else "P"
     if k == "join":
@@ -293,6 +318,8 @@ def typ_of(n, u):
     if k == "mle":
         out = n[1].split("->")[1]
         return {0: "S", 1: "D" if len(u.shape) == 1 else "P", 2: "D"}[len(out)]
+    if k == "mlen":
+        return {0: "S", 1: "D" if len(u.shape) == 1 else "P", 2: "D"}[len(n[1])]
     if k == "ptw":
         return typ_of(n[3], u)
     if k == "bin":
@@ -440,6 +467,15 @@ def _jenergy(spec, v, t, E):
         return jnp.real(E.msum(jnp.conj(v) * v, t))
     if k == "quad":
         return 0.5 * E.msum(v * E.vec(spec[1]) * v, t)
+    if k == "invgamma":
+        if E.guard:
+            _realonly(v)
+            _pos(v)
+        al = E.vec(spec[2]) if isinstance(spec[2], list) else _num(spec[2])
+        return E.msum((al + 1.) * jnp.log(v), t) + E.msum(E.vec(spec[1]) / v, t)
+    if k == "jaxlh":
+        r = v - E.vec(spec[1])
+        return 0.5 * E.msum(E.vec(spec[2]) * r * r, t)
     raise ValueError(k)
 
 
@@ -583,8 +619,52 @@ def _jx0(n, E):
         if len(out) == 0:
             return E.msum(prod, "D")
         return _contract(prod, E)
+    if k == "mlen":
+        # ["mlen", out, optimize, keys, subscripts, operand...]: every operand carries the letters of D or
+        # of P (= D without space pc); the result is a (partial) trace of the product of the operands
+        # broadcast to D
+        rank = len(u.shape)
+        prod = None
+        for ss, o in zip(n[4], n[5:]):
+            isp = len(ss) < rank
+            if isinstance(o, dict):
+                v = jnp.asarray(_tile(nx.arr(o["f"])))
+            else:
+                v = _jx(o, E)
+            if isp:
+                B = np.zeros((u.size, E.n["P"]))
+                B[np.arange(u.size), E.keep] = 1.
+                v = E.matmul(_tilemat(B, u.size, E.n["P"]), v, "P")
+            prod = v if prod is None else prod * v
+        if len(n[1]) == rank:
+            return prod
+        if len(n[1]) == 0:
+            return E.msum(prod, "D")
+        return _contract(prod, E)
+    if k == "tadd":
+        # T-valued expression + (D-valued expression labelled with one of T's keys)
+        t = dict(_jx(n[2], E))
+        t[n[1]] = t[n[1]] + _jx(n[3], E)
+        return t
     if k == "jaxop":
         return _jjax(n[1], _jx(n[2], E), E)
+    if k == "jaxop2":
+        a, b = _jx(n[1], E), _jx(n[2], E)
+        return jnp.sin(a) * b + a
+    if k == "jaxopT":
+        v = _jx(n[1], E)
+        return {"x": v * v, "y": jnp.cos(v) * E.msum(v, "D")}
+    if k == "avg":
+        tot = 0.
+        for smp in n[1]:
+            saved = dict(E.x)
+            for key in E.keys:
+                E.x[key] = E.x[key] + E.vec(smp[key])
+            try:
+                tot = tot + _jx(n[2], E)
+            finally:
+                E.x = saved
+        return tot / len(n[1])
     if k == "energy":
         return _jenergy(n[1], _jx(n[2], E), typ_of(n[2], u), E)
     if k == "esum":
@@ -738,6 +818,22 @@ def _energy(spec, dom, u):
     if k == "quad":
         return ift.QuadraticFormOperator(
             ift.DiagonalOperator(ift.makeField(dom, np.array(spec[1], dtype=np.float64).reshape(dom.shape))))
+    if k == "invgamma":
+        beta = ift.makeField(dom, np.array(spec[1], dtype=np.float64).reshape(dom.shape))
+        al = spec[2]
+        if isinstance(al, list):
+            al = ift.makeField(dom, np.array(al, dtype=np.float64).reshape(dom.shape))
+        return ift.InverseGammaEnergy(beta, al)
+    if k == "jaxlh":
+        import warnings
+        import jax.numpy as jnp
+        d = np.array(spec[1], dtype=np.float64).reshape(dom.shape)
+        w = np.array(spec[2], dtype=np.float64).reshape(dom.shape)
+        trafo = ift.makeOp(ift.makeField(dom, np.sqrt(w))) @ ift.Adder(ift.makeField(dom, d), neg=True)
+        with warnings.catch_warnings():
+            warnings.simplefilter("ignore")     # "does not support normalized residuals yet"
+            return ift.JaxLikelihoodEnergyOperator(dom, lambda v: 0.5 * jnp.sum(w * (v - d) ** 2),
+                                                   transformation=trafo, sampling_dtype=np.float64)
     raise ValueError(k)
 
 
@@ -760,6 +856,11 @@ def _fisher(spec, v):
     if k == "studentt":
         th = np.broadcast_to(np.asarray(spec[1], dtype=np.float64).reshape(-1), (n,))
         return np.diag((th + 1) / (th + 3))
+    if k == "invgamma":
+        al = np.broadcast_to(np.asarray(spec[2], dtype=np.float64).reshape(-1), (n,))
+        return np.diag((al + 1.) / v.real ** 2)
+    if k == "jaxlh":
+        return np.diag(np.asarray(spec[2], dtype=np.float64).reshape(-1))
     return None
 
 
@@ -890,9 +991,44 @@ class _Build:
             b = self.b(n[3])
             op = ift.MultiLinearEinsum({"p": u.D, "q": u.D}, n[1], key_order=("p", "q"))
             return op @ (a.ducktape_left("p") + b.ducktape_left("q"))
+        if k == "mlen":
+            rank = len(u.shape)
+            dyn, stat, arg = {}, {}, None
+            for key, ss, o in zip(n[3], n[4], n[5:]):
+                isp = len(ss) < rank
+                if isinstance(o, dict):
+                    stat[key] = u.field(o["f"], u.P, u.pshape) if isp else u.field(o["f"])
+                    continue
+                dyn[key] = u.P if isp else u.D
+                c = self.b(o).ducktape_left(key)
+                arg = c if arg is None else arg + c
+            op = ift.MultiLinearEinsum(dyn, ",".join(n[4]) + "->" + n[1], key_order=tuple(n[3]),
+                                       static_mf=stat if stat else None, optimize=n[2])
+            return op @ arg
+        if k == "tadd":
+            return self.b(n[2]) + self.b(n[3]).ducktape_left(n[1])
         if k == "jaxop":
             c = self.b(n[2])
             return ift.JaxOperator(c.target, c.target, _tables()[1][n[1]]) @ c
+        if k == "jaxop2":
+            import jax.numpy as jnp
+            a, b = self.b(n[1]), self.b(n[2])
+            op = ift.JaxOperator({"p": u.D, "q": u.D}, u.D, lambda d: jnp.sin(d["p"]) * d["q"] + d["p"])
+            return op @ (a.ducktape_left("p") + b.ducktape_left("q"))
+        if k == "jaxopT":
+            import jax.numpy as jnp
+            c = self.b(n[1])
+            return ift.JaxOperator(u.D, u.T, lambda v: {"x": v * v, "y": jnp.cos(v) * jnp.sum(v)}) @ c
+        if k == "avg":
+            h = self.b(n[2])
+            smp = []
+            for sm in n[1]:
+                if u.multi:
+                    smp.append(ift.MultiField.from_dict(
+                        {key: u.field(sm[key], force_dtype=True) for key in h.domain.keys()}, h.domain))
+                else:
+                    smp.append(u.field(sm[""], force_dtype=True))
+            return ift.AveragedEnergy(h, smp)
         if k == "energy":
             c = self.b(n[2])
             e = _energy(n[1], c.target, u)
@@ -902,7 +1038,10 @@ class _Build:
             return self.b(n[1]) + self.b(n[2])
         if k == "escale":
             e = self.b(n[2])
-            return ift.ScalingOperator(e.target, _num(n[1])) @ e
+            cst = _num(n[1])
+            how = n[3] if len(n) > 3 else 0
+            return [lambda: ift.ScalingOperator(e.target, cst) @ e, lambda: cst * e, lambda: e * cst,
+                    lambda: e.scale(cst)][how % 4]()
         if k == "ham":
             return ift.StandardHamiltonian(self.b(n[1]))
         raise ValueError(k)
@@ -1000,7 +1139,11 @@ class _Eager:
         if k == "esum":
             return self.e(n[1]) + self.e(n[2])
         if k == "escale":
-            return _num(n[1]) * self.e(n[2])
+            cst = _num(n[1])
+            e = self.e(n[2])
+            how = n[3] if len(n) > 3 else 0
+            # Linearization.__rmul__ / __mul__ / __truediv__ with a number (value, Jacobian and metric scale)
+            return [lambda: cst * e, lambda: e * cst, lambda: e / (1. / cst)][how % 3]()
         raise ValueError(k)
 
 
@@ -1016,8 +1159,16 @@ def _children(n):
     if k in ("lin", "mulc", "addc", "subc", "rsubc", "divc", "rdivc", "powc", "rpowc", "addf", "subf", "mulf",
              "divf", "sum", "integrate", "vdotf", "get", "duckr", "jaxop", "energy", "escale"):
         return [n[2]]
-    if k in ("neg", "real", "imag", "conj", "bcast", "bcastS", "ham"):
+    if k in ("neg", "real", "imag", "conj", "bcast", "bcastS", "ham", "jaxopT"):
         return [n[1]]
+    if k == "avg":
+        return [n[2]]
+    if k == "tadd":
+        return [n[2], n[3]]
+    if k == "jaxop2":
+        return [n[1], n[2]]
+    if k == "mlen":
+        return [o for o in n[5:] if not isinstance(o, dict)]
     if k == "bin":
         return [n[2], n[3]]
     if k in ("vdot", "join", "esum"):
@@ -1029,8 +1180,8 @@ def _children(n):
     raise ValueError(k)
 
 
-NONLIN = ("ptw", "linpre", "powc", "rpowc", "rdivc", "mle", "jaxop", "energy")
-BINARY = ("bin", "vdot", "join", "esum")
+NONLIN = ("ptw", "linpre", "powc", "rpowc", "rdivc", "mle", "mlen", "jaxop", "jaxop2", "jaxopT", "energy")
+BINARY = ("bin", "vdot", "join", "esum", "tadd", "jaxop2")
 
 
 def stats(n, acc):
@@ -1057,6 +1208,29 @@ def stats(n, acc):
         acc["kinds"].add("mle:" + n[1] + (":static" if isinstance(n[3], dict) else ""))
         if not isinstance(n[3], dict):
             acc["binary"] += 1
+    if k == "mlen":
+        ndyn = sum(1 for o in n[5:] if not isinstance(o, dict))
+        rank = max(len(t) for t in n[4])
+        acc["kinds"].add("mlen:%dops" % len(n[4]))
+        acc["kinds"].add("mlen:key_order_" + ("sorted" if list(n[3]) == sorted(n[3]) else "unsorted"))
+        acc["kinds"].add("mlen:optimize=%s" % (n[2],))
+        if ndyn < len(n[4]):
+            acc["kinds"].add("mlen:static")
+        if any(len(t) < rank for t in n[4]):
+            acc["kinds"].add("mlen:unequal_operand_shapes")
+        if ndyn >= 2:
+            acc["binary"] += 1
+    if k == "escale":
+        acc["kinds"].add("escale:how%d" % (n[3] if len(n) > 3 else 0))
+    if k in ("ptw", "linpre"):
+        c = n[3] if k == "ptw" else n[4]
+        while c[0] == "addc":
+            c = c[2]
+        if c[0] == "mulc" and not isinstance(c[1], dict):
+            if abs(c[1]) >= 8:
+                acc["ptw"].add((n[1] if k == "ptw" else n[2]) + "(arg_scaled_up)")
+            elif abs(c[1]) <= 1. / 256:
+                acc["ptw"].add((n[1] if k == "ptw" else n[2]) + "(arg_scaled_down)")
     if k in BINARY:
         acc["binary"] += 1
     d = 0
@@ -1132,6 +1306,20 @@ def _metric_oracle(u, tree, keys, J):
     if k == "ham":
         a = _metric_oracle(u, tree[1], keys, J)
         return None if a is None else a + np.eye(a.shape[0])
+    if k == "avg":
+        # mean over the samples of the metric of the inner energy at the shifted position
+        import copy
+        tot = None
+        for smp in tree[1]:
+            u2 = copy.copy(u)
+            u2.x = dict(u.x)
+            for key in keys:
+                u2.x[key] = u.x[key] + nx.arr(smp[key]).astype(u.dtype).reshape(u.shape)
+            a = _metric_oracle(u2, tree[2], keys, J)
+            if a is None:
+                return None
+            tot = a if tot is None else tot + a
+        return tot / len(tree[1])
     return None
 
 
@@ -1172,7 +1360,7 @@ def _compare(u, tree, keys, ora, plain, lin, wm, mode):
         close(Ja, JT, mode + "jacobian_adjoint_vs_transpose", tol=TOL, scale=sj,
               detail=f"\nnifty=\n{np.asarray(Ja)}\njax^T=\n{JT}")
     # gradient convenience for scalar targets
-    Mo = _metric_oracle(u, tree, keys, J) if tree[0] in ("energy", "esum", "escale", "ham") else None
+    Mo = _metric_oracle(u, tree, keys, J) if tree[0] in ("energy", "esum", "escale", "ham", "avg") else None
     if wm and Mo is not None:
         require(lin.metric is not None, mode + "metric_missing", "want_metric=True but metric is None")
         require(lin.metric.domain is lin.jac.domain and lin.metric.target is lin.jac.domain,
